@@ -261,6 +261,13 @@ func runCnfCase(o *Oracle, d json.RawMessage, oc *Outcome, prop string) {
 	}
 	if c.Certified {
 		checkCert(&run, "certified")
+		// refinement: the run, seen through what it emitted, is a run of the abstract machine
+		if len(run.model) == n || run.status != solver.Sat {
+			oc.Corr++
+			if a := cdclReplay(o, n, c.Clauses, runEvents(&run)); a != "ok" {
+				oc.Fail("corr", "cdcl-refinement", entry, "the run is not accepted by the abstract machine GS.Cdcl: %s (events: %d learned lines then %v)", a, len(run.lines), run.status)
+			}
+		}
 	}
 	// same verdict with the other certificate setting; gives an independent validation of
 	// Unsat answers beyond the brute-force bound
@@ -282,4 +289,41 @@ func runCnfCase(o *Oracle, d json.RawMessage, oc *Outcome, prop string) {
 			}
 		}
 	}
+}
+
+
+// cdclReplay runs an event list through the verified abstract machine GS.Cdcl (every learn
+// must be RUP w.r.t. base + learned, an Unsat answer needs a unit-propagation refutation,
+// a Sat answer a model of the base as written). Returns "ok" or "rejected <i>".
+func cdclReplay(o *Oracle, n int, base [][]int, events []string) string {
+	return o.Ask(fmt.Sprintf("cdcl %d | %s | %s", n, encCnf(base), strings.Join(events, " / ")))
+}
+
+func evLearn(c []int) string {
+	if len(c) == 0 {
+		return "L e"
+	}
+	return "L " + encInts(c)
+}
+
+func evModel(m []bool) string { return "M " + encBools(m) }
+
+// runEvents turns a certified solver run into events: its certificate lines are learn
+// events, except the final empty line which announces the Unsat answer.
+func runEvents(r *solveRun) []string {
+	var evs []string
+	lines := r.lines
+	if r.status == solver.Unsat && len(lines) > 0 && len(lines[len(lines)-1]) == 0 {
+		lines = lines[:len(lines)-1]
+	}
+	for _, l := range lines {
+		evs = append(evs, evLearn(l))
+	}
+	switch r.status {
+	case solver.Sat:
+		evs = append(evs, evModel(r.model))
+	case solver.Unsat:
+		evs = append(evs, "U")
+	}
+	return evs
 }
